@@ -119,6 +119,7 @@ OksClause(c) ==
         pair(g, p) == OksPairClause(c.gts[g], c.prs[p], c.opt, c.area[g], c.M[g][p], c.ks[g][p])
         base == FirstBad(Tup([k \in 1..(G * P) |-> pair(((k - 1) \div P) + 1, ((k - 1) % P) + 1)]))
     IN IF c.raised # "" THEN "raised"
+       ELSE IF c.argmut THEN "stddev_argument_mutated"         \* inputs are left untouched (a shared per-keypoint stddev array)
        ELSE IF Len(c.M) # G \/ \E g \in 1..G : Len(c.M[g]) # P THEN "oks_shape"
        ELSE IF base # "ok" THEN base
        ELSE FirstBad(Tup([k \in 1..Len(c.rels) |-> RelClause(c, c.rels[k])]))
